@@ -242,10 +242,17 @@ MUTANTS = [
          note="F-C28-4 comes back: `.capy` is stripped from folder names too",
          edits=[(NAMES, "let res = if idx + 1 == num_components {", "let res = if idx + 1 <= num_components {")]),
     dict(id="c28-local-import-not-followed", checks=["C28"], expect="caught",
-         note="only imports lowered at the top level of a file are recorded for the driver's work list: a file imported inside a function body is never read",
-         edits=[(BODY, """        self.bodies.imports.insert(file_name);
-        Expr::Import(file_name)""", """        if self.scopes.len() <= 1 {
-            self.bodies.imports.insert(file_name);
-        }
-        Expr::Import(file_name)""")]),
+         note="imports found while a function body is lowered are forgotten again, so the driver's work list never reads a file that is only imported inside a function (a first version of this mutant, `if self.scopes.len() <= 1`, turned out to be equivalent: the scope stack is reset per lambda)",
+         edits=[(BODY, """        let old_labels = mem::take(&mut self.label_kinds);
+
+        assert!(self.inline_header_params.is_empty());""", """        let old_labels = mem::take(&mut self.label_kinds);
+        let old_imports = self.bodies.imports.clone();
+
+        assert!(self.inline_header_params.is_empty());"""),
+                (BODY, """        self.label_kinds = old_labels;
+
+        Expr::Lambda(""", """        self.label_kinds = old_labels;
+        self.bodies.imports = old_imports;
+
+        Expr::Lambda(""")]),
 ]
